@@ -105,8 +105,10 @@ _p("C04", "proof",
 _p("C05", "proof",
    "Proved for every function of the node and every input (Props/C05.v, Proofs/RaftRouting.v): MsgAppResp / MsgVoteResp / MsgPreVoteResp are only "
    "ever appended to msgsAfterAppend, never to the immediately sendable queue; the static configuration is untouched; restart state is a function "
-   "of storage. That the application persists before sending is the Ready contract, implemented by the harness' application model; monitors check "
-   "at send time that storage holds the promised vote / entries.", [])
+   "of storage; after an accepted append the follower's logical log holds every entry of the message and reaches the acknowledged index "
+   "(C05_accepted_append_is_held). That the application persists before sending is the Ready contract, implemented by the harness' application "
+   "model (synchronous Ready/Advance, or append / apply threads with separately delayed acknowledgements); monitors check at send time that "
+   "storage holds the promised vote / entries and that a leader counts its own entries only when they are durable.", [])
 _p("C06", "proof",
    "Proved (Props/C06.v): maybeCommit moves commit only to the joint quorum index of Match (exact by C12) and only if the entry there has the leader's "
    "term and lies within the log; heartbeats carry min(Match, commit); commitTo never passes the last index; commit never decreases. That Match "
@@ -133,9 +135,13 @@ _p("C10", "proof",
    ["DisableConfChangeValidation = false for the gate lemma", "known finding F9 (ApplyConfChange after restore) is classified separately"])
 _p("C11", "proof",
    "Proved (Props/C11.v): a leader that is not the sole voter and has not committed in its term only postpones a MsgReadIndex; reads are released "
-   "exactly up to the joint quorum order statistic of acknowledged positions (C12); read bookkeeping is dropped on every reset. Linearizability "
-   "across the cluster is monitored (read index >= every commit reported before the request).",
-   ["known finding F3 (sole-voter shortcut precedes the own-term-commit test) is classified separately"])
+   "exactly up to the joint quorum order statistic of acknowledged positions (C12); read bookkeeping is dropped on every reset; a leader that is "
+   "not a voter of its configuration never takes the sole-voter shortcut (C11_non_voter_leader_asks_quorum, the F12 repair). PROVED at protocol "
+   "level (C11_read_index_covers_protocol over Spec/ReadIndex.v on top of Spec/Safety.v, non-vacuity in ReadIndexEx.v): once a majority has "
+   "answered the heartbeat sent after the request, every entry committed by any leadership before the request lies at or below a position the "
+   "serving leadership had committed by then. Linearizability across the cluster is also monitored on every schedule with ReadOnlySafe (read "
+   "index >= every commit reported before the request); lease-based reads are outside the property.",
+   ["protocol theorem: static voter set", "F3 and F12 are repaired (known_findings.txt)"])
 _p("C13", "proof",
    "Proved (Props/C13.v) for every tracker state and change list: an accepted Simple / EnterJoint / LeaveJoint yields a configuration satisfying the "
    "invariants of checkInvariants (as a proposition: members have progress, staged learners are outgoing voters and not learners, learners are "
@@ -162,8 +168,9 @@ _p("C15", "exploration",
    "transfer, same term and leader everywhere, equal last (index, term), commit = applied = last index on every member, no unstable entries or "
    "snapshot, no auto-leave joint configuration left, equal configurations, every follower in StateReplicate with Match = last index, not paused, "
    "no pending snapshot; then three proposals at the leader must be applied by every member within 12 more election timeouts. The README exception "
-   "(a survivor whose two-voter configuration half still contains a removed node) is recognised and skipped. Proved (Props/C15.v): heartbeat "
-   "responses un-pause a follower; a pending transfer is aborted when the election timeout elapses.",
+   "(a survivor whose two-voter configuration half still contains a removed or demoted node) is recognised and skipped. This check found F7 (the "
+   "automatic leave of a joint configuration was never retried after an aborted leadership transfer), repaired in /repo. Proved (Props/C15.v): "
+   "heartbeat responses un-pause a follower; a pending transfer is aborted when the election timeout elapses.",
    ["the fault-free suffix assumes a cooperative application: the leader's storage offers a snapshot covering its applied index and membership when one must be sent"])
 _p("C16", "proof",
    "Proved (Props/C16.v): limitSize / raftLog.slice / entries return within the budget or a single entry, for every log and storage; every MsgApp "
